@@ -110,11 +110,24 @@ class ModelsReadV2(ModelsReadV1):
     """The same clauses for the cube-format reader Models._read_version_2 (broadband filters given by name,
     memory mapping off): the two readers are separate copies of the same code and are verified separately."""
     name = MODELS + '._read_version_2'
-    properties = ('C02',)
-    variants = ('two_filters',)
+    properties = ('C02', 'C16')
+    variants = ('two_filters', 'one_wavelength')
     assume_pre_of = (CF + '.interpolate', 'sedfitter.sed.cube.BaseCube.read')
 
+    def requires(self, c, a):
+        if self.variant_ == 'one_wavelength':
+            return _WavelengthCase.requires(self, c, a)
+        return ModelsReadV1.requires(self, c, a)
+
+    def ensures(self, c, a, result, old):
+        if self.variant_ == 'one_wavelength':
+            return _WavelengthCase.ensures(self, c, a, result, old)
+        return ModelsReadV1.ensures(self, c, a, result, old)
+
     def setup(self, c, variant):
+        self.variant_ = variant
+        if variant == 'one_wavelength':
+            return _WavelengthCase.setup(self, c, variant)
         args = ModelsReadV1.setup(self, c, variant)
         c.interp.package_conf = dict(c.interp.package_conf, version=2)
         # the flux cube of the package has one row per model of the convolved-flux files
@@ -125,3 +138,54 @@ class ModelsReadV2(ModelsReadV1):
                                      names=c.array('cube_names', (M,), kind='int'), valid=c.array('cube_valid', (M,), kind='int'), dist=c.real('cube_dist_cm'))
         args['use_memmap'] = False
         return args
+
+
+
+MONOF = 'sedfitter.convolved_fluxes.convolved_fluxes.MonochromaticFluxes'
+
+
+class _WavelengthCase(object):
+    """Models._read_version_2 with a WAVELENGTH given instead of a filter name (C16): the fluxes of that band are the
+    cube slice at a tabulated wavelength NEAREST to the requested one (no tabulated wavelength is closer), through
+    MonochromaticFluxes.from_sed_cube; the band's wavelength is the requested wavelength.  (Variant 'one_wavelength' of the contract of _read_version_2.)"""
+
+    def setup(self, c, variant):
+        from sedvc.interp import ClassVal
+        self.step = c.real('logd_step')
+        c.interp.package_conf = {'name': 'pkg', 'logd_step': self.step, 'aperture_dependent': True, 'version': 2}
+        c.interp.ext['os.path.exists'] = lambda interp, st, fr, args, kw: True
+        M, A, W = c.int('cube_n_models'), c.int('cube_n_ap'), c.int('cube_n_wav')
+        c.assume([M >= 1, A >= 2, W >= 2])
+        c.interp.package_cube = dict(wav=c.array('cube_wav', (W,)), ap=c.array('cube_ap', (A,)), val=c.array('cube_val', (M, A, W)), unc=c.array('cube_unc', (M, A, W)),
+                                     names=c.array('cube_names', (M,), kind='int'), valid=c.array('cube_valid', (M,), kind='int'), dist=c.real('cube_dist_cm'))
+        self.want = Quantity(c.real('requested_wavelength'), U['micron'])
+        self.theta = c.real('theta')
+        filters = c.list([c.dict({'wav': self.want, 'aperture_arcsec': self.theta})])
+        self.dr = c.array('distance_range', (2,))
+        ci = c.interp.repo.find_class(MODELS)
+        return dict(cls=ClassVal(ci), directory='MODELDIR', filters=filters, distance_range=Quantity(self.dr, U['kpc']), remove_resolved=None, use_memmap=False)
+
+    def requires(self, c, a):
+        d = c.A(self.dr)
+        return {'range': band(d[0] > 0, d[0] <= d[1]), 'step_positive': self.step > 0, 'aperture_positive': self.theta > 0, 'wavelength_positive': self.want.value > 0}
+
+    def raises(self, c, a):
+        return {'Exception': ('may', True)}
+
+    def ensures(self, c, a, result, old):
+        ev = c.st.events
+        reads = [e for e in ev if e[0] == 'ret' and e[1] == 'sedfitter.sed.cube.BaseCube.read']
+        slices = [e for e in ev if e[0] == 'call' and e[1] == MONOF + '.from_sed_cube']
+        out = {'one_cube_slice_taken': len(reads) == 1 and len(slices) == 1 and slices[0][2]['cube'].addr == reads[0][2].addr}
+        if not out['one_cube_slice_taken']:
+            return out
+        cube = reads[0][2]
+        wq = reads[0][3]['_wav']
+        W = c.A(wq)
+        k = slices[0][2]['wavelength_index']
+        w = self.want.value * self.want.unit.scale
+        dist = lambda j: c.abs(W[j] * wq.unit.scale - w)
+        out['slice_is_at_a_nearest_tabulated_wavelength'] = [band(k >= 0, k < W.n), c.forall(W.n, lambda j: dist(k) <= dist(j), 'nearest')]
+        wl = c.attr(result, '_wavelengths')
+        out['band_wavelength_is_the_requested_one'] = c.A(wl)[0] * wl.unit.scale == w
+        return out
